@@ -1154,9 +1154,78 @@ class Exec:
     # ---- calls
     SPEC_FORMS = ("forall", "exists", "implies", "iff", "old", "ite", "forall_real")
 
+    def super_init(self, e, st):
+        """super().__init__(...) inside a constructor: the base class's __init__ (read from the same source) runs on the same object - inlined, statement by
+        statement, with its parameters bound from the call and its defaults evaluated where it is defined; it must have one way out"""
+        from . import loader
+        stack = getattr(self, "_class_stack", None)
+        if stack is None:
+            parts = self.qual.split(".")
+            if len(parts) < 3 or parts[-1] != "__init__":
+                raise Undecided("super() outside a constructor")
+            stack = self._class_stack = [".".join(parts[:-1])]
+        cur = stack[-1]
+        cnode, _ = loader.find(cur)
+        if not isinstance(cnode, ast.ClassDef) or len(cnode.bases) != 1 or not isinstance(cnode.bases[0], ast.Name):
+            raise Undecided(f"super() in a class with other than one named base ({cur})")
+        base = ".".join(cur.split(".")[:-1] + [cnode.bases[0].id])
+        try:
+            bnode, _ = loader.find(base)
+            init = [m for m in bnode.body if isinstance(m, ast.FunctionDef) and m.name == "__init__"]
+        except KeyError:
+            init = []
+        if not init:
+            raise Undecided(f"the base class {base} has no constructor in the source")
+        fn = init[0]
+        a = fn.args
+        if a.vararg or a.kwarg or a.kwonlyargs or a.posonlyargs:
+            raise Undecided("base constructor with starred / keyword-only parameters")
+        params = [x.arg for x in a.args]
+        args = [self.ev(x, st) for x in e.args]
+        kwargs = {}
+        for k in e.keywords:
+            if k.arg is None:
+                raise Undecided("** in a super().__init__ call")
+            kwargs[k.arg] = self.ev(k.value, st)
+        bound = {"self": st.env["self"]}
+        bound.update(zip(params[1:], args))
+        bound.update(kwargs)
+        for p_, d_ in zip(params[len(params) - len(a.defaults):], a.defaults):
+            if p_ not in bound:
+                bound[p_] = self.ev(d_, st)          # defaults: evaluated afresh (the contract's inputs decide whether a default object is shared)
+        if any(p_ not in bound for p_ in params) or any(k_ not in params for k_ in kwargs):
+            raise Undecided("arguments of super().__init__ do not match the base constructor")
+        saved = st.env
+        # the base constructor sees its own parameters (module-level names and builtins are found by name resolution), plus the ghost state
+        st.env = dict({k: v for k, v in saved.items() if k.startswith("__")}, **bound)
+        stack.append(base)
+        nret = len(self.returns)
+        try:
+            outs = self.run(loader.strip_docstring(fn), st)
+        finally:
+            stack.pop()
+        recs = self.returns[nret:]
+        del self.returns[nret:]
+        ways = [(r.st, r.exc) for r in recs] + [(o, None) for o in outs]
+        if len(ways) != 1:
+            st.env = saved
+            raise Undecided(f"the base constructor of {cur} has {len(ways)} ways out")
+        st_out, exc = ways[0]
+        ghost = {k: v for k, v in st_out.env.items() if k.startswith("__")}
+        if st_out is not st:
+            st.pc, st.heap, st.trace, st.writes = st_out.pc, st_out.heap, st_out.trace, st_out.writes
+        st.env = saved
+        st.env.update(ghost)
+        if exc is not None:
+            raise PyRaise(exc, f"raised by the constructor of {base}")
+        return NONE
+
     def ev_Call(self, e, st):
         if self.spec_mode and isinstance(e.func, ast.Name) and e.func.id in self.SPEC_FORMS:
             return self.spec_ev(e, st)
+        if isinstance(e.func, ast.Attribute) and e.func.attr == "__init__" and isinstance(e.func.value, ast.Call) and isinstance(e.func.value.func, ast.Name) \
+                and e.func.value.func.id == "super" and not e.func.value.args:
+            return self.super_init(e, st)
         f = self.ev(e.func, st)
         args = []
         for a in e.args:
